@@ -45,7 +45,7 @@ def coq_runner(case):
     if k == 'seq':
         return coq_runner(dict(case, kind=case['op'])) + '2'
     if k == 'pivot':
-        return 'run_pivot_only' if case.get('nounpivot') else 'run_pivot'
+        return 'run_pivot_only' if case.get('nounpivot') else 'run_pivot_sub' if case.get('ysub') else 'run_pivot'
     if 'lane' in case:                       # large tables go to their own cases files so that they are evaluated in parallel
         return 'run_%s_b%d' % (k, case['lane'] % LANES)
     return 'run_' + k
@@ -55,6 +55,8 @@ def coq_case(case):
     if case['kind'] == 'seq':
         return '(%s, %s)' % (coq_case(dict(case, kind=case['op'])), coq_case(dict(case, kind=case['op'], cols=seq_after(case))))
     t = V.coq_table(case['cols'])
+    if case['kind'] == 'pivot' and case.get('ysub') and not case.get('nounpivot'):
+        return '(%s, ([%s], %s, %s, %s), [%s])' % (t, '; '.join(V.coq_name(c) for c in case['x']), V.coq_name(case['y']), V.coq_name(case['z']), AGG[case['agg']], '; '.join(V.coq_name(c) for c in case['ysub']))
     if case['kind'] == 'pivot':
         return '(%s, ([%s], %s, %s, %s))' % (t, '; '.join(V.coq_name(c) for c in case['x']), V.coq_name(case['y']), V.coq_name(case['z']), AGG[case['agg']])
     return '(%s, [%s])' % (t, '; '.join(V.coq_name(c) for c in case['by']))
@@ -251,7 +253,8 @@ def impl_pivot(case, t, cols, n, nans):
         st2, UP = 'skip', None
         obs = [ctable(P, nans)]
     else:
-        st2, UP = call(lambda: P.unpivot(xarg, y, z))
+        ysub = case.get('ysub')                            # unpivot(x, {y: [labels]}, z): only these label columns, in this order
+        st2, UP = call(lambda: P.unpivot(xarg, {y: list(ysub)} if ysub else y, z))
         obs = [ctable(P, nans), ctable(UP, nans) if st2 == 'ok' else ['ERR', st2]]
     viol = None
     xkeys = [tuple(t[c][i] for c in x) for i in range(n)]
@@ -279,7 +282,7 @@ def impl_pivot(case, t, cols, n, nans):
                     zs = [t[z][i] for i in members]
                     exp = f(zs) if f else zs
                     okc = V.canon(got, nans) == V.canon(exp, nans)
-                    if exp is not None:
+                    if exp is not None and (not case.get('ysub') or case.get('nounpivot') or lb in case['ysub']):
                         expected_triples.append(json.dumps([[ceq(v, nans) for v in pk[r]], lb, V.canon(exp, nans)]))
                 else:
                     exp = None; okc = got is None
@@ -310,7 +313,7 @@ def shape(case):
     if k == 'seq':
         return 'seq:%s:%s:%s' % (case['op'], 'key' if case['assign']['col'] in (case.get('by') or list(case.get('x', [])) + [case.get('y')]) else 'value', case['assign']['how'])
     if k == 'pivot':
-        return 'pivot:x%d%s:%s%s' % (len(case['x']), 'list' if case.get('xlist') else '', case['agg'], (':floaty' if case.get('nounpivot') else '') + (':big' if case.get('big') else ''))
+        return 'pivot:x%d%s:%s%s' % (len(case['x']), 'list' if case.get('xlist') else '', case['agg'], (':floaty' if case.get('nounpivot') else ':ysub' if case.get('ysub') else '') + (':big' if case.get('big') else ''))
     return '%s:by%d/%d%s%s' % (k, len(case['by']), len(case['cols']), ':list' if case.get('bylist') else '', ':big' if 'lane' in case else '')
 
 # ------------------------------------------------------------------ generation
@@ -318,13 +321,13 @@ def share_nan(cells):
     return [['nan', 0] if (v is not None and v[0] == 'nan') else v for v in cells]
 
 
-XNAMES = ['name', 'date', 'key1', 'columns', 'data', 'self']
+XNAMES = ['name', 'date', 'key1', 'columns', 'data', 'self', '_columns']      # '_columns' is the name xyz gives the y column internally when y is not a string
 YSUB = ['am', 'e', 'a', 'at', 'nam', 'te', 'ey', 'col', 'um']             # substrings of the x column names (an unpivot that tests `label in x` on a string drops them)
 def rand_pivot(rng, tier):
     q = tier == 'quick'
     x = rng.sample(XNAMES, rng.choice([1, 1, 1, 2]))
     # x / y / z / value columns may also be called like the constructor's parameters or `self` (y = 'columns' raised KeyError before /repo 1210486)
-    yn = rng.choice(['yy', 'yy', 'yy', 'data', 'columns', 'self']); zn = rng.choice(['zz', 'zz', 'zz', 'columns', 'data', 'self'])
+    yn = rng.choice(['yy', 'yy', 'yy', 'data', 'columns', 'self', '_columns']); zn = rng.choice(['zz', 'zz', 'zz', 'columns', 'data', 'self'])
     if yn in x or yn == zn: yn = 'yy'
     if zn in x: zn = 'zz'
     wn = rng.choice(['w', 'columns', 'data'])
@@ -361,7 +364,14 @@ def rand_pivot(rng, tier):
     if rng.random() < 0.25: case['agglist'] = True
     if rng.random() < 0.3: case['alias'] = True
     if any(v[0] == 'f' for v in dict(cols)[yn]):
-        case['nounpivot'] = True             # a float y stays a float column key; unpivot would return the float, not its label
+        case['nounpivot'] = True
+    elif rng.random() < 0.2:
+        labels = []
+        for v in dict(cols)[yn]:
+            lb = v[1] if v[0] == 's' else str(v[1])
+            if lb not in labels: labels.append(lb)
+        k = rng.randrange(1, len(labels) + 1)
+        case['ysub'] = rng.sample(labels, k)             # a float y stays a float column key; unpivot would return the float, not its label
     return case
 
 def rand_big(rng, kind, lane):
@@ -434,9 +444,9 @@ def gen_cases(rng, tier):
         else: new = V.rand_column(rng, n, rng.choice(['ints', 'bin', 'strs', 'mixed', 'nums']))[1]
         if op == 'pivot' and any(v is not None and v[0] == 'f' for v in (new if col == base['y'] else dict((c, cells) for c, cells in base['cols'])[base['y']])):
             base['nounpivot'] = True
-        how = 'attr' if (col.isidentifier() and not hasattr(dict, col) and col not in ('columns', 'shape', 'self') and rng.random() < 0.4) else 'item'
+        how = 'attr' if (col.isidentifier() and not col.startswith('_') and not hasattr(dict, col) and col not in ('columns', 'shape', 'self') and rng.random() < 0.4) else 'item'
         case = dict(base, kind='seq', op=op, assign={'col': col, 'cells': new, 'how': how})
-        case.pop('lane', None)
+        case.pop('lane', None); case.pop('ysub', None)
         cases.append(case)
     for i in range(6 if q else 30):                       # large pivots: few x keys and y labels, many rows per cell
         n = rng.randrange(101, 251)
